@@ -181,9 +181,22 @@ pub fn gen_set(r: &mut Rng, c: SetCfg) -> Vec<TFile> {
             own.push((orig, worst));
             next_free = next_free.max(orig + worst) + r.below(0x80) as u32;
         }
-        let opts = FileOpts { id: i, blocks, shared: fr, exotic: c.exotic, crlf: r.chance(1, 3), ext_place: r.below(4) as u8, max_blkw: 4, pin_first: false };
+        let opts = FileOpts { id: i, blocks, shared: fr, exotic: c.exotic, crlf: r.chance(1, 3), ext_place: r.below(4) as u8, max_blkw: 4, pin_first: false, huge: None, pad_comment: 0 };
         let mut opts = opts;
-        if i == 0 && r.chance(1, 8) {
+        if i == 0 && r.chance(1, 30) {
+            // one block of file 0 (the highest one, so that nothing of this file lies behind it) ends with a huge .blkw
+            let n = *r.pick(&[21845u16, 21846, 21850, 30000, 43690]);
+            let hb = (0..opts.blocks.len()).max_by_key(|b| opts.blocks[*b].0).unwrap_or(0);
+            let end = opts.blocks[hb].0 as u32 + opts.blocks[hb].1 as u32 * 7 + 1 + n as u32;
+            if end < 0xF000 && !placed.iter().any(|(s, _)| *s >= opts.blocks[hb].0 as u32) {
+                opts.huge = Some((hb, n));
+                next_free = next_free.max(end) + r.below(0x80) as u32;
+            }
+        }
+        if r.chance(1, 40) {
+            opts.pad_comment = 65_500 + r.below(600) as usize;
+        }
+        if i == 0 && opts.huge.is_none() && r.chance(1, 8) {
             // a block at the very bottom of memory with a shared label on its first word (address x0000,
             // which is also the placeholder address of external declarations)
             opts.blocks[0].0 = 0x0000;
